@@ -298,8 +298,8 @@ def oracle_c07(rec, tol=TOL):
     n = len(rec["conv_num"])
     idx = sorted(i for w in rec["sets"] for i in w["indices"])
     if idx != list(range(n)):
-        v.append(("partition", "Wyckoff sets do not partition the atoms of the conventional cell"))
-        return v
+        v.append(("partition", "Wyckoff sets do not partition the atoms of the conventional cell (%d atoms, set indices %s...)" % (n, idx[:12])))
+        return v, False
     from ase.data import chemical_symbols
 
     cell = rec["conv_cell"]
@@ -308,7 +308,7 @@ def oracle_c07(rec, tol=TOL):
     ds = conv_dataset(rec, tol)
     if ds is None:
         v.append(("no_dataset", "independent symmetry search failed on the returned cell"))
-        return v
+        return v, False
     R, T = np.array(ds.rotations), np.array(ds.translations)
     ident = np.allclose(ds.transformation_matrix, np.eye(3), atol=1e-6) and np.abs(sym.fdiff(ds.origin_shift, 0)).max() < 1e-6
     for w in rec["sets"]:
